@@ -253,3 +253,78 @@ M('c13-boundary-inner-space-refused', 'C13', 'R12', SYNC, _FORM_RET, """        
 
 """ + _FORM_RET)
 # negative controls verified by hand with --root (silent): the correct `{0,69}` pattern; `if '\\r' in boundary or '\\n' in boundary: raise`
+
+# ---------------------------------------------------- R1 (auto-mutation seed sa-am00486): collaborator flags, all public members
+_DRAIN_ASGI = "                if handler.exhaust_stream:\n                    await self.stream.exhaust()\n"
+_DRAIN_SYNC = "                if handler.exhaust_stream:\n                    self.stream.exhaust()\n"
+M('c13-asgi-get-media-drain-flag-inverted', 'C13', 'R1', ASGI, _DRAIN_ASGI,             # the seed's edit
+  "                if not (handler.exhaust_stream):\n                    await self.stream.exhaust()\n")
+M('c13-wsgi-get-media-drain-else-branch', 'C13', 'R1', SYNC, _DRAIN_SYNC,
+  "                if handler.exhaust_stream:\n                    pass\n                else:\n                    self.stream.exhaust()\n")
+M('c13-asgi-data-alias-dropped', 'C13', 'R1', ASGI,
+  "    data: Awaitable[bytes] = property(get_data)  # type: ignore[assignment]\n", "    data: Awaitable[bytes]\n")
+M('c13-asgi-content-type-override-lowercases', 'C13', 'R1', ASGI,
+  "    async def get_data(self) -> bytes:  # type: ignore[override]\n",
+  "    @property\n    def content_type(self):\n        value = self._headers.get(b'content-type', b'text/plain')\n"
+  "        try:\n            return value.decode('ascii').lower()\n        except UnicodeDecodeError as err:\n"
+  "            raise MultipartParseError(description='invalid Content-Type header in a body part') from err\n\n"
+  "    async def get_data(self) -> bytes:  # type: ignore[override]\n")
+
+# ---------------------------------------------------- R14 drain iff handler.exhaust_stream (both flavours alike: R1 is blind)
+M2('c13-both-get-media-drain-flag-inverted', 'C13', 'R14', [
+    {'file': SYNC, 'old': _DRAIN_SYNC, 'new': "                if not handler.exhaust_stream:\n                    self.stream.exhaust()\n"},
+    {'file': ASGI, 'old': _DRAIN_ASGI, 'new': "                if not handler.exhaust_stream:\n                    await self.stream.exhaust()\n"}])
+M2('c13-both-get-media-always-drained', 'C13', 'R14', [
+    {'file': SYNC, 'old': _DRAIN_SYNC, 'new': "                self.stream.exhaust()\n"},
+    {'file': ASGI, 'old': _DRAIN_ASGI, 'new': "                await self.stream.exhaust()\n"}])
+M2('c13-both-get-media-drain-only-on-success', 'C13', 'R14', [
+    {'file': SYNC, 'old': "            try:\n                self._media = handler.deserialize(self.stream, self.content_type, None)\n            finally:\n" + _DRAIN_SYNC,
+     'new': "            self._media = handler.deserialize(self.stream, self.content_type, None)\n"
+            "            if handler.exhaust_stream:\n                self.stream.exhaust()\n"},
+    {'file': ASGI, 'old': "            try:\n                self._media = await handler.deserialize_async(\n                    self.stream, self.content_type, None\n"
+                          "                )\n            finally:\n" + _DRAIN_ASGI,
+     'new': "            self._media = await handler.deserialize_async(self.stream, self.content_type, None)\n"
+            "            if handler.exhaust_stream:\n                await self.stream.exhaust()\n"}])
+
+# ---------------------------------------------------- R3 a mapping handler maps (auto-mutation seeds sa-am01565 / sa-am01566)
+_CT_RAISE = """        except UnicodeDecodeError as err:
+            raise MultipartParseError(
+                description='invalid Content-Type header in a body part'
+            ) from err
+"""
+_CD_RAISE = """        except UnicodeDecodeError as err:
+            raise MultipartParseError(
+                description='invalid Content-Disposition header in a body part'
+            ) from err
+"""
+M('c13-content-type-decode-failure-swallowed', 'C13', 'R3', SYNC, _CT_RAISE, "        except UnicodeDecodeError as err:\n            pass\n")
+M('c13-content-disposition-decode-failure-swallowed', 'C13', 'R3', SYNC, _CD_RAISE, "        except UnicodeDecodeError as err:\n            pass\n")
+M('c13-content-type-decode-failure-falls-back', 'C13', 'R3', SYNC, _CT_RAISE,
+  "        except UnicodeDecodeError:\n            return 'application/octet-stream'\n")
+M('c13-content-disposition-decode-failure-empty-params', 'C13', 'R3', SYNC, _CD_RAISE,
+  "        except UnicodeDecodeError:\n            return ('form-data', {})\n")
+M('c13-asgi-get-text-failure-returns-none', 'C13', 'R3', ASGI,
+  """        except (ValueError, LookupError) as err:
+            raise MultipartParseError(
+                description='invalid text or charset: {}'.format(charset)
+            ) from err
+""", "        except (ValueError, LookupError):\n            return None\n")
+M('c13-filename-star-failure-keeps-raw', 'C13', 'R3', SYNC,
+  """                except (ValueError, LookupError) as err:
+                    raise MultipartParseError(
+                        description='invalid text or charset: {}'.format(charset)
+                    ) from err
+""", "                except (ValueError, LookupError):\n                    self._filename = filename_raw\n")
+
+# ---------------------------------------------------- R13 documented defaults (auto-mutation seeds sa-am01556.. / sa-am01586..)
+M('c13-default-part-count-65', 'C13', 'R13', SYNC, "        self.max_body_part_count = 64\n", "        self.max_body_part_count = 65\n")
+M('c13-default-part-count-63', 'C13', 'R13', SYNC, "        self.max_body_part_count = 64\n", "        self.max_body_part_count = 63\n")
+M('c13-default-headers-size-8191', 'C13', 'R13', SYNC, "        self.max_body_part_headers_size = 8192\n", "        self.max_body_part_headers_size = 8191\n")
+M('c13-default-headers-size-8193', 'C13', 'R13', SYNC, "        self.max_body_part_headers_size = 8192\n", "        self.max_body_part_headers_size = 8193\n")
+M('c13-default-buffer-size-1023k', 'C13', 'R13', SYNC, "        self.max_body_part_buffer_size = 1024 * 1024\n", "        self.max_body_part_buffer_size = 1023 * 1024\n")
+M('c13-default-buffer-size-1025k', 'C13', 'R13', SYNC, "        self.max_body_part_buffer_size = 1024 * 1024\n", "        self.max_body_part_buffer_size = 1024 * 1025\n")
+M('c13-default-buffer-size-decimal-megabyte', 'C13', 'R13', SYNC, "        self.max_body_part_buffer_size = 1024 * 1024\n", "        self.max_body_part_buffer_size = 1000 * 1000\n")
+M('c13-default-count-doc-changed-code-not', 'C13', 'R13', SYNC, "in the form (default ``64``).", "in the form (default ``128``).")
+# negative controls verified by hand with --root (silent): `1 << 20`, `2 ** 20`, `1048576`, a module constant `_MIB = 1024 * 1024`;
+# docstring "(default ``1048576``)" / "(default: ``1 MiB``)"; default and docstring changed together (128 / ``128``);
+# `if not handler.exhaust_stream: pass / else: exhaust()` in both or one flavour; `h = handler` ... (see fixer report)
